@@ -378,7 +378,7 @@ func (a *An) c08Lifecycle(rule string) {
 		}
 	}
 	// rotation of our keys: previous wiped, then current moved into it
-	if f := a.MustFn("(*keyManagementContext).generateNewDHKeyPair"); f != nil {
+	if f := a.MustFn("(*keyManagementContext).installNewDHKeyPair"); f != nil {
 		prev := a.MustField("keyManagementContext", "ourPreviousDHKeys")
 		for _, st := range a.DirectStoresTo(prev) {
 			if a.C.within(st, f) {
